@@ -278,9 +278,28 @@ PART_PREDS = {
 }
 
 
+TRUTH_GRAPH = ["UNWIND [[true, true], [true, false], [true, null], [false, true], [false, false], [false, null], "
+               "[null, true], [null, false], [null, null]] AS ab CREATE (:T {a: ab[0], b: ab[1], c: true})"]
+TRUTH_PREDS = ["n.a AND n.b", "n.a OR n.b", "n.a XOR n.b", "NOT n.a", "n.a XOR (n.b AND n.a)", "(n.a XOR n.b) AND n.c",
+               "(n.a XOR n.b) OR n.b", "(n.a AND n.b) XOR n.c", "n.a = n.b", "n.a <> n.b", "n.a IN [n.b, true]",
+               "NOT (n.a XOR n.b)", "n.a AND NOT n.b", "(n.a OR n.b) XOR (n.a AND n.b)", "n.a XOR n.b XOR n.c",
+               "coalesce(n.a, false) XOR n.b", "n.a IS NULL XOR n.b", "(n.a XOR n.b) IS NULL"]
+
+
 def part_sessions(tier, seed):
     rng = random.Random(seed)
     sessions = []
+    # every combination of true / false / null under the boolean operators, at the root of the filter
+    cases = []
+    for i, p in enumerate(TRUTH_PREDS):
+        for prefix, suffix in (("MATCH (n:T)", "RETURN id(n) AS i"),
+                               ("MATCH (n:T) WITH n", "RETURN id(n) AS i"),
+                               ("MATCH (m:T) OPTIONAL MATCH (n:T) WHERE id(n) = id(m) WITH m, n", "RETURN id(m) AS i")):
+            qs = [prefix + " " + suffix, "%s WHERE %s %s" % (prefix, p, suffix),
+                  "%s WHERE NOT (%s) %s" % (prefix, p, suffix), "%s WHERE (%s) IS NULL %s" % (prefix, p, suffix)]
+            cases.append({"cid": len(cases) + 1, "kind": "part", "query": qs[1], "queries": qs, "params": {},
+                          "meta": {"pred": p, "indexed": False}})
+    sessions.append({"id": "part/truth", "setup": TRUTH_GRAPH, "cases": cases})
     xs = [1, 2, None, "a", {"fl": 1.0}, {"fl": 2.5}]
     for gi, setup in enumerate(PART_GRAPHS):
         for indexed in (False, True):
